@@ -109,6 +109,16 @@ func (e *Exec) funcEnv(fr *Frame, st *State) *Env {
 				case *ssa.Phi:
 					if v, bound := fr.vals[x]; bound && x.Comment != "" {
 						set(x.Comment, v)
+						// a counted loop `for i := a; ...; i++`: iter (iter2, ...) is the
+						// number of completed iterations, as for range loops
+						if li := loops[b]; li != nil && li.blocks[e.curBlock] && x.Comment != "rangeindex" && !hasRangeIndex(b) {
+							if init, ok := countedLoopInit(li, x); ok {
+								iv := e.val(fr, init, env.st)
+								if iv.K == KInt && v.K == KInt {
+									set("rangeindex", vInt(sx("-", sx("-", v.t(), iv.t()), "1")))
+								}
+							}
+						}
 					}
 				}
 			}
@@ -1069,4 +1079,59 @@ func ghostFieldLoc(p *Prog, m string) (name, arg string, ok bool) {
 		return "", "", false
 	}
 	return name, strings.TrimSpace(m[i+1 : len(m)-1]), true
+}
+
+func hasRangeIndex(b *ssa.BasicBlock) bool {
+	for _, in := range b.Instrs {
+		phi, ok := in.(*ssa.Phi)
+		if !ok {
+			break
+		}
+		if phi.Comment == "rangeindex" {
+			return true
+		}
+	}
+	return false
+}
+
+// countedLoopInit recognises the induction variable of `for i := init; ...; i++`:
+// a header phi whose back-edge values are all phi+1 and whose single entry value is
+// defined outside the loop. Only the first such phi of a header counts.
+func countedLoopInit(li *loopInfo, phi *ssa.Phi) (ssa.Value, bool) {
+	for _, in := range li.header.Instrs {
+		p, ok := in.(*ssa.Phi)
+		if !ok {
+			break
+		}
+		if init, ok := inductionInit(li, p); ok {
+			if p == phi {
+				return init, true
+			}
+			return nil, false
+		}
+	}
+	return nil, false
+}
+
+func inductionInit(li *loopInfo, phi *ssa.Phi) (ssa.Value, bool) {
+	var init ssa.Value
+	for i, pred := range li.header.Preds {
+		ev := phi.Edges[i]
+		if li.blocks[pred] {
+			bo, ok := ev.(*ssa.BinOp)
+			if !ok || bo.Op != token.ADD || bo.X != phi {
+				return nil, false
+			}
+			c, ok := bo.Y.(*ssa.Const)
+			if !ok || c.Value == nil || c.Int64() != 1 {
+				return nil, false
+			}
+		} else {
+			if init != nil && init != ev {
+				return nil, false
+			}
+			init = ev
+		}
+	}
+	return init, init != nil
 }
